@@ -134,7 +134,7 @@ def rule_r1(ctx) -> List[R.Inst]:
     rid = "C05.R1"
     fn, fam, _ = families(ctx)
     file = M.mods[fn.mod].rel
-    hdr = M.fn(WRITE_HEADER)
+    hdr = c04.split_line_breaks(M.fn(WRITE_HEADER))
     insts = []
     # header side: for e, b in enumerate(self.bpms, 1): b"#BPM" + id(e) + b" " + value(b)
     F = Flow()
@@ -153,6 +153,19 @@ def rule_r1(ctx) -> List[R.Inst]:
                     l = c
                     while isinstance(l, ast.BinOp) and isinstance(l.op, ast.Add):
                         l = l.left
+                    if isinstance(l, ast.Constant) and isinstance(l.value, bytes) and l.value.strip(b"\r\n") == b"" and l.value:
+                        # a line separator written in front of the line (lines appended to one growing buffer): the line starts after it
+                        flat, e_ = [], c
+                        while isinstance(e_, ast.BinOp) and isinstance(e_.op, ast.Add):
+                            flat.insert(0, e_.right)
+                            e_ = e_.left
+                        if flat and isinstance(flat[0], ast.Constant) and flat[0].value == b"#BPM":
+                            c2 = flat[0]
+                            for x_ in flat[1:]:
+                                c2 = ast.copy_location(ast.BinOp(left=c2, op=ast.Add(), right=x_), c)
+                            if any(isinstance(p_, ast.BinOp) and p_.left is c for p_ in ast.walk(n)):
+                                continue          # (an inner prefix of a longer chain)
+                            c, l = c2, flat[0]
                     if isinstance(l, ast.Constant) and l.value == b"#BPM" and head is None:
                         it = F.eval(n.iter)
                         F2 = Flow()
@@ -496,7 +509,7 @@ def rule_r5(ctx) -> List[R.Inst]:
         insts.append(R.undec(rid, "empty-slot", file, fn.node.lineno, "payload initialisation not recognised"))
     # header lines: b"#KEY " + value, joined by CRLF
     wt = c04.header_writer(ctx)
-    hdr = M.nfn(WRITE_HEADER)      # (a private helper that builds the lines of one table is read in place)
+    hdr = c04.split_line_breaks(M.nfn(WRITE_HEADER))      # (a private helper that builds the lines of one table is read in place)
     for k in (b"TITLE", b"ARTIST", b"BPM", b"PLAYLEVEL", b"LNOBJ"):
         key = f"header-line:{k.decode()}"
         if k not in wt:
@@ -523,6 +536,9 @@ def rule_r5(ctx) -> List[R.Inst]:
                 parts.insert(0, e.right)
                 e = e.left
             parts.insert(0, e)
+            if len(parts) == 5 and isinstance(parts[0], ast.Constant) and isinstance(parts[0].value, bytes) and parts[0].value and \
+                    parts[0].value.strip(b"\r\n") == b"":
+                parts = parts[1:]          # the line break written in front of a line appended to one buffer
             if isinstance(parts[0], ast.Constant) and parts[0].value in (b"#BPM", b"#WAV", b"#") and len(parts) == 4:
                 key = f"header-line:{parts[0].value.decode()}xx"
                 if any(i.key == key for i in insts):
